@@ -195,10 +195,27 @@ void pop3_quit(arg) char *arg;
   die();
 }
 
+/* scan_ulong() wraps around silently; here a number that does not fit is just huge */
+unsigned int scan_ulong_sat(s,u) char *s; unsigned long *u;
+{
+  unsigned int pos;
+  unsigned long result;
+  unsigned long c;
+
+  pos = 0; result = 0;
+  while ((c = (unsigned long) (unsigned char) (s[pos] - '0')) < 10) {
+    if (result > (ULONG_MAX - c) / 10) result = ULONG_MAX;
+    else result = result * 10 + c;
+    ++pos;
+  }
+  *u = result;
+  return pos;
+}
+
 int msgno(arg) char *arg;
 {
   unsigned long u;
-  if (!scan_ulong(arg,&u)) { err_syntax(); return -1; }
+  if (!scan_ulong_sat(arg,&u)) { err_syntax(); return -1; }
   if (!u) { err_nozero(); return -1; }
   --u;
   if (u >= numm || u >= INT_MAX) { err_toobig(); return -1; }
@@ -260,9 +277,9 @@ void pop3_top(arg) char *arg;
   i = msgno(arg);
   if (i == -1) return;
  
-  arg += scan_ulong(arg,&limit);
+  arg += scan_ulong_sat(arg,&limit);
   while (*arg == ' ') ++arg;
-  if (scan_ulong(arg,&limit)) ++limit; else limit = 0;
+  if (scan_ulong_sat(arg,&limit)) ++limit; else limit = 0;
  
   fd = open_read(m[i].fn);
   if (fd == -1) { err_nosuch(); return; }
